@@ -143,6 +143,16 @@ def _items():
         'pub fn san_gen<T: Sat>(x: T) -> T { x.sat() }\npub fn pred_gen<T: Sat>(x: &T) -> bool { x.ok() }\n'
         'pub fn vfn_gen<T: Sat>(x: &T) -> Result<(), MyErr> { if x.ok() { Ok(()) } else { Err(MyErr::Worse) } }\n',
         '')
+    for nm, ty in (('pair', '(i32, u8)'), ('opt', 'Option<i64>')):
+        NM = nm.upper()
+        add('san_%s' % nm,
+            'pub fn san_%s(x: %s) -> %s { x }\n' % (nm, ty, ty),
+            'pub uninterp spec fn SPEC_SAN_%s(x: %s) -> %s;\n#[verifier::external_body]\n'
+            'pub fn san_%s(x: %s) -> (r: %s) ensures r == SPEC_SAN_%s(x) { unimplemented!() }\n' % (NM, ty, ty, nm, ty, ty, NM))
+        add('pred_%s' % nm,
+            'pub fn pred_%s(x: &%s) -> bool { true }\n' % (nm, ty),
+            'pub uninterp spec fn SPEC_PRED_%s(x: %s) -> bool;\n#[verifier::external_body]\n'
+            'pub fn pred_%s(x: &%s) -> (r: bool) ensures r == SPEC_PRED_%s(*x) { unimplemented!() }\n' % (NM, ty, nm, ty, NM))
     add('Meters',
         '#[derive(Debug, Clone, Copy, PartialEq)]\npub struct Meters(pub i32);\n'
         'impl<\'a> arbitrary::Arbitrary<\'a> for Meters { fn arbitrary(u: &mut arbitrary::Unstructured<\'a>) -> arbitrary::Result<Self> { Ok(Meters(u.arbitrary()?)) } }\n'
